@@ -3,7 +3,7 @@
    that round - delivered to a correct peer in ANY order, each at most once, while the peer's beacon clock is in
    the duty's slot - is Accepted (never Ignored, never Rejected). *)
 From Coq Require Import List NArith ZArith Bool Lia.
-From SSV Require Import Qbft.Model Qbft.SyncRound Qbft.SyncGeneric Qbft.Bridge Qbft.HonestGate.
+From SSV Require Import Qbft.Model Qbft.SyncRound Qbft.SyncGeneric Qbft.RecoverGeneric Qbft.Bridge Qbft.HonestGate.
 From SSV Require Validation.Model Gen.ValidationConsts Validation.ProofsPanic Validation.HonestRound
      Validation.HonestEnvelope.
 Import ListNotations.
@@ -44,10 +44,10 @@ Proof.
   - apply IH. intros x y Hx Hy. apply Hinj; right; assumption.
 Qed.
 
-Lemma item_of_gate : forall fdlen m h v t s,
-  gate_msg fdlen true m = HR.hmsg h v fdlen t s -> item_of m = (t, s).
+Lemma item_of_gate : forall fdlen m h rho v nrc t s,
+  gate_msg fdlen true m = HR.hmsg h rho v fdlen nrc t s -> item_of m = (t, s).
 Proof.
-  intros fdlen [k rcj pj] h v t s Eg.
+  intros fdlen [k rcj pj] h rho v nrc t s Eg.
   pose proof (f_equal V.c_type Eg) as E1. pose proof (f_equal V.c_signers Eg) as E2.
   cbn in E1, E2. unfold item_of. rewrite E1, E2. reflexivity.
 Qed.
@@ -102,7 +102,7 @@ Qed.
 
 (* 2. and a correct peer accepts every one of them *)
 Theorem fault_free_round_is_accepted : forall (l : list ((Z * Z) * smsg)) (vs : V.vstate),
-  (forall s, V.get_signer s (V.get_cs (vid, role) vs) = None) ->
+  HR.before_round h VC.firstRound (V.get_cs (vid, role) vs) ->
   NoDup (map snd l) ->
   Forall (fun x => HE.in_slot vc h (fst x) /\ In (snd x) (all_broadcasts qc h ld)) l ->
   Forall (eq V.Accept) (snd (V.run vc vs (map (fun x => (fst x, envelope_of (snd x))) l))).
@@ -117,17 +117,18 @@ Proof.
     intros E. rewrite E in L. destruct L. }
   set (l' := map (fun x => (fst x, item_of (snd x))) l).
   assert (Hmap : map (fun x => (fst x, envelope_of (snd x))) l =
-                 map (fun x => (fst x, HE.henv vc vid role h (value_name ld) fdlen p2p rawlen dlen pkprefix
+                 map (fun x => (fst x, HE.henv vc vid role h VC.firstRound (value_name ld) fdlen 0 p2p rawlen dlen pkprefix
                                         (fst (snd x)) (snd (snd x)))) l').
   { unfold l'. rewrite map_map. apply map_ext_in. intros [now m] Hx. cbn [fst snd].
     rewrite Forall_forall in Hall. destruct (Hall _ Hx) as [_ Hm]. cbn [snd] in Hm.
     unfold all_broadcasts in Hm. apply in_flat_map in Hm. destruct Hm as (i & Hi & Hm).
     destruct (round_broadcasts_are_honest_items qc sh h ld fdlen Hcomm Hz i m Hi Hm) as (t & s & Eg & _).
-    pose proof (item_of_gate _ _ _ _ _ _ Eg) as Et.
+    pose proof (item_of_gate _ _ _ _ _ _ _ _ Eg) as Et.
     rewrite Et. cbn [fst snd]. unfold envelope_of, HE.henv. rewrite Eg. reflexivity. }
   rewrite Hmap.
-  apply (HE.honest_round_accepted_at_the_gate vc sh vid role h ld (value_name ld) fdlen p2p rawlen dlen pkprefix
-           W Hshare Hliq Hmeta Hatt Hd0 Hd1 Hr0 Hr1 Hrole Hvalid Hleader Hrr Hfd l' vs Hfresh).
+  apply (HE.honest_round_accepted_at_the_gate vc sh vid role h VC.firstRound ld (value_name ld) fdlen 0 p2p rawlen dlen pkprefix
+           W Hshare Hliq Hmeta Hatt Hd0 Hd1 Hr0 Hr1 Hrole Hvalid Hleader Hrr Hfd
+           ltac:(unfold VC.firstRound; lia) ltac:(unfold VC.firstRound; lia) l' vs Hfresh).
   - unfold l'. rewrite map_map. cbn [snd].
     rewrite <- (map_map snd item_of). apply NoDup_map_inj_on; [|exact Hndl].
     intros x y Hx Hy. rewrite Forall_forall in Hall.
@@ -138,8 +139,108 @@ Proof.
     split; [exact Hs|].
     unfold all_broadcasts in Hm. apply in_flat_map in Hm. destruct Hm as (i & Hi & Hm).
     destruct (round_broadcasts_are_honest_items qc sh h ld fdlen Hcomm Hz i m Hi Hm) as (t & s & Eg & Hit).
-    pose proof (item_of_gate _ _ _ _ _ _ Eg) as Et.
+    pose proof (item_of_gate _ _ _ _ _ _ _ _ Eg) as Et.
     rewrite Et. exact Hit.
 Qed.
 
 End Round.
+
+(* ---- the recovery round ------------------------------------------------------------------------------------ *)
+
+Definition all_broadcasts2 (c : cfg) (h ld2 : N) (live : list N) : list smsg :=
+  flat_map (round2_broadcasts c h ld2 live) live.
+
+Definition rebuild2 (c : cfg) (h ld2 : N) (live : list N) (x : N * N) : smsg :=
+  if fst x =? T_PROPOSAL then prop2 c h (snd x) (firstn (N.to_nat (quorum c)) live)
+  else if fst x =? T_ROUNDCHANGE then rcm h (snd x)
+  else fm2 h (fst x) (hash (start_value ld2)) (snd x).
+
+Lemma broadcast2_rebuild : forall c h ld2 live m,
+  In m (all_broadcasts2 c h ld2 live) -> m = rebuild2 c h ld2 live (item_of m).
+Proof.
+  intros c h ld2 live m Hm. unfold all_broadcasts2 in Hm. apply in_flat_map in Hm. destruct Hm as (i & _ & Hm).
+  unfold round2_broadcasts in Hm. cbn [app] in Hm. destruct Hm as [<-|Hm]; [reflexivity|].
+  apply in_app_or in Hm. destruct Hm as [Hm|[<-|[<-|[]]]]; try reflexivity.
+  destruct (N.eqb_spec ld2 i) as [->|]; [|destruct Hm]. destruct Hm as [<-|[]]. reflexivity.
+Qed.
+
+Lemma item_of_inj2 : forall c h ld2 live m1 m2,
+  In m1 (all_broadcasts2 c h ld2 live) -> In m2 (all_broadcasts2 c h ld2 live) -> item_of m1 = item_of m2 -> m1 = m2.
+Proof.
+  intros c h ld2 live m1 m2 H1 H2 E.
+  rewrite (broadcast2_rebuild c h ld2 live m1 H1), (broadcast2_rebuild c h ld2 live m2 H2), E. reflexivity.
+Qed.
+
+Section Round2.
+Variables (qc : cfg) (h ld2 : N) (live : list N).
+Hypothesis Hz : ~ In 0 (committee qc).
+Hypothesis Hlive : forall y, In y live -> In y (committee qc).
+Hypothesis Hld : proposer qc h R2 = Some ld2.
+Hypothesis Hh : h <= 9223372036854775807.
+Variables (vc : V.cfg) (sh : V.share) (vid role fdlen : N) (p2p : bool) (rawlen dlen pkprefix : N).
+Hypothesis W : VP.wf_cfg vc.
+Hypothesis Hshare : V.get_share vc vid = Some sh.
+Hypothesis Hcomm : V.s_committee sh = committee qc.
+Hypothesis Hliq : V.s_liquidated sh = false.
+Hypothesis Hmeta : V.s_has_meta sh = true.
+Hypothesis Hatt : V.s_attesting sh = true.
+Hypothesis Hd0 : dlen <> 0.
+Hypothesis Hd1 : dlen <= VC.maxConsensusMsgSize.
+Hypothesis Hr0 : VC.messageOffset < rawlen.
+Hypothesis Hr1 : rawlen <= VC.maxEncodedMsgSize.
+Hypothesis Hrole : (N.eqb role VC.roleValidatorRegistration || N.eqb role VC.roleVoluntaryExit) = false.
+Hypothesis Hvalid : V.valid_role role = true.
+Hypothesis Hfd : fdlen <> 0.
+
+Definition envelope_of2 (m : smsg) : V.envelope :=
+  {| V.e_p2p := p2p; V.e_raw_len := rawlen; V.e_topic := Some (pkprefix mod VC.subnetsCount);
+     V.e_op_found := true; V.e_op_key_ok := true; V.e_rsa_ok := true; V.e_ssv_decode_ok := true;
+     V.e_data_len := dlen; V.e_domain := V.c_domain vc; V.e_pk_prefix := pkprefix; V.e_role := role;
+     V.e_pk_deser_ok := true; V.e_vid := vid; V.e_msg_type := VC.ssvConsensusMsgType;
+     V.e_body := V.BConsensus (gate_msg fdlen true m) |}.
+
+(* Every round-2 message of the recovery (round changes, the justified proposal, prepares, commits of the live
+   operators), in any order, at any instant of the slot, to a peer whose validator saw nothing or only round 1 of
+   the duty: Accept. *)
+Theorem recovery_round_is_accepted : forall (l : list ((Z * Z) * smsg)) (vs : V.vstate),
+  HR.before_round h 2 (V.get_cs (vid, role) vs) ->
+  NoDup (map snd l) ->
+  Forall (fun x => HE.in_slot vc h (fst x) /\ In (snd x) (all_broadcasts2 qc h ld2 live)) l ->
+  Forall (eq V.Accept) (snd (V.run vc vs (map (fun x => (fst x, envelope_of2 (snd x))) l))).
+Proof.
+  intros l vs Hfresh Hndl Hall.
+  assert (Hh64 : h < 18446744073709551616) by lia.
+  pose proof (leader2_is qc sh h ld2 Hcomm Hld Hh64) as Hleader.
+  assert (Hne : committee qc <> []).
+  { intros E. rewrite Hcomm, E in Hleader. unfold V.round_robin in Hleader. cbn in Hleader. discriminate. }
+  assert (Hrr : V.rr_defined sh h 2 = true).
+  { apply rr_defined_in_range; try lia. rewrite Hcomm. exact Hne. }
+  set (l' := map (fun x => (fst x, item_of (snd x))) l).
+  set (nrc := nrc2 qc live).
+  assert (Hitem : forall m, In m (all_broadcasts2 qc h ld2 live) ->
+            gate_msg fdlen true m = HR.hmsg h 2 (value_name ld2) fdlen nrc (fst (item_of m)) (snd (item_of m)) /\
+            HR.honest_item sh ld2 (item_of m)).
+  { intros m Hm. unfold all_broadcasts2 in Hm. apply in_flat_map in Hm. destruct Hm as (i & Hi & Hm).
+    destruct (round2_broadcasts_are_honest_items qc sh h ld2 fdlen live Hcomm Hz Hlive Hld i m Hi Hm) as (t & s & Eg & Hit).
+    pose proof (item_of_gate _ _ _ _ _ _ _ _ Eg) as Et. rewrite Et. cbn [fst snd]. split; [exact Eg|exact Hit]. }
+  assert (Hmap : map (fun x => (fst x, envelope_of2 (snd x))) l =
+                 map (fun x => (fst x, HE.henv vc vid role h 2 (value_name ld2) fdlen nrc p2p rawlen dlen pkprefix
+                                        (fst (snd x)) (snd (snd x)))) l').
+  { unfold l'. rewrite map_map. apply map_ext_in. intros [now m] Hx. cbn [fst snd].
+    rewrite Forall_forall in Hall. destruct (Hall _ Hx) as [_ Hm]. cbn [snd] in Hm.
+    destruct (Hitem m Hm) as [Eg _]. unfold envelope_of2, HE.henv. rewrite Eg. reflexivity. }
+  rewrite Hmap.
+  apply (HE.honest_round_accepted_at_the_gate vc sh vid role h 2 ld2 (value_name ld2) fdlen nrc p2p rawlen dlen pkprefix
+           W Hshare Hliq Hmeta Hatt Hd0 Hd1 Hr0 Hr1 Hrole Hvalid Hleader Hrr Hfd
+           ltac:(unfold VC.firstRound; lia) ltac:(lia) l' vs Hfresh).
+  - unfold l'. rewrite map_map. cbn [snd].
+    rewrite <- (map_map snd item_of). apply NoDup_map_inj_on; [|exact Hndl].
+    intros x y Hx Hy. rewrite Forall_forall in Hall.
+    apply in_map_iff in Hx. destruct Hx as (x0 & <- & Hx0). apply in_map_iff in Hy. destruct Hy as (y0 & <- & Hy0).
+    apply (item_of_inj2 qc h ld2 live); [exact (proj2 (Hall _ Hx0))|exact (proj2 (Hall _ Hy0))].
+  - unfold l'. rewrite Forall_forall. intros x Hx. apply in_map_iff in Hx. destruct Hx as ([now m] & <- & Hx0).
+    cbn [fst snd]. rewrite Forall_forall in Hall. destruct (Hall _ Hx0) as [Hs Hm]. cbn [fst snd] in Hs, Hm.
+    split; [exact Hs|]. exact (proj2 (Hitem m Hm)).
+Qed.
+
+End Round2.
